@@ -24,7 +24,8 @@ def c16(ck):
     ck.rule = ("transport in {unix path, unix path;mode=..., unix:@abstract, tcp:127.0.0.1:port, with_activate(cmd), with_bridge(cmd)} x request sequences of C01; environment matrix for "
                "LISTEN_FDS / LISTEN_PID / LISTEN_FDNAMES (absent, wrong pid, garbage, 0/1/several descriptors, named / unnamed) against a probing server process; address strings from a "
                "scheme/garbage generator against varlink_connect and Listener::new; every constructor under a 15 s watchdog; non-trivial = all; distinct by case")
-    env = dict(ENV, VH_TMP=os.path.join(BUILD, "tmp"))
+    # VH_NOISY: the activated test service logs a line on its standard output and one on its standard error
+    env = dict(ENV, VH_TMP=os.path.join(BUILD, "tmp"), VH_NOISY="1")
     lines, meta = [], {}
     n = 0
     seqs = [[("getinfo", "-"), ("ok", "-"), ("stream", "more")], [("descr_a", "-"), ("unknown_iface", "-"), ("ok", "oneway"), ("fail", "-")],
@@ -71,6 +72,14 @@ def c16(ck):
             lines.append("%s %s %s" % (cid, op, hx(a)))
             meta[cid] = (op, a, None, None)
     impl = run_lines(harness_bin("h_addr"), lines, shards=6, timeout=900, env=env)
+    # nothing an activated service prints may reach the activating process's standard output (the harness's standard
+    # output is its result channel: anything there that is not a result line came from an activated child)
+    strays = [k for k in impl if k not in meta]
+    ck.case("activated-child-output")
+    if strays:
+        ck.failures.append({"what": "output of a socket-activated service appeared on the standard output of the process that activated it "
+                                    "(with_activate redirects the child's standard output to standard error and leaves its own alone)",
+                            "stray_lines": ["%s %s" % (k, impl[k][:80]) for k in strays[:4]]})
     # reference: the same streams through handle() in memory
     wl = {}
     for si, seq in enumerate(seqs):
